@@ -2,7 +2,7 @@
 """Contracts for dataiter/list_of_dicts.py (C15, C16, C17)."""
 import z3
 from pyvc.contract import Contract, register, LoopSpec
-from pyvc.core import (INT, BOOL, V, NONE, ABSENT, Seq, seq_eq, filter_seq, zint, zbool, in_range, truthy)
+from pyvc.core import (INT, BOOL, V, NONE, ABSENT, Seq, seq_eq, filter_seq, zint, zbool, in_range, truthy, Enum)
 from pyvc.interp import Instance
 from pyvc import models as M
 from pyvc.speclib import select_by
@@ -1004,3 +1004,204 @@ class SortRagged(Contract):
     def raises(self, cx, exc):
         cx.prove("only-KeyError", exc.exc == "KeyError")
         cx.prove("frame:items-unchanged", cx.ctx.heap["D"] == cx.old["heap"]["D"])
+
+
+# =========================================================================================
+# C16: joins and aggregation
+# =========================================================================================
+def distinct_items(cx, s, name):
+    """Precondition of the in-place joins: the items of a list are pairwise distinct dict objects
+    (pos is the inverse of the item function)."""
+    ctx = cx.ctx
+    pos = ctx.fresh_fn(name + "_pos", V, INT)
+    j = z3.Int("j!dp")
+    ctx.assumptions.append(z3.ForAll([j], z3.Implies(in_range(j, s.len), pos(s.at(j)) == j), patterns=[s.at(j)]))
+    return pos
+
+
+def disjoint_lists(cx, s, o):
+    i, j = z3.Ints("i!dj j!dj")
+    cx.ctx.assumptions.append(z3.ForAll([i, j], z3.Implies(z3.And(in_range(i, s.len), in_range(j, o.len)), s.at(i) != o.at(j)),
+                                        patterns=[z3.MultiPattern(s.at(i), o.at(j))]))
+
+
+class _LJoin(Contract):
+    file, prop = F, "C16"
+    lkey, rkey = "k1", "k1"
+    inner = False
+    holder = None
+
+    def setup(self, cx):
+        self_, other = cx.lod("self"), cx.lod("other")
+        s, o = self_.base, other.base
+        all_items_have(cx, s, [self.lkey])
+        all_items_have(cx, o, [self.rkey])
+        pos = distinct_items(cx, s, "self")
+        disjoint_lists(cx, s, o)
+        by = [self.lkey] if self.lkey == self.rkey else [(self.lkey, self.rkey)]
+        self.holder.update(cx=cx, s=s, o=o, pos=pos, lk=M.to_v(cx.it, self.lkey), rk=M.to_v(cx.it, self.rkey))
+        return {"self": self_, "args": [other] + by, "other": other, "pos": pos}
+
+    @staticmethod
+    def spec(holder, D0):
+        """m(i): first index in other whose key equals the key of self[i]; merged contents."""
+        s, o, lk, rk = holder["s"], holder["o"], holder["lk"], holder["rk"]
+        im = holder["cx"].it.__dict__.get("last_index_map")
+        n2 = zint(o.len)
+        keyl = lambda i: D0[s.at(i)][lk]
+        matched = lambda i: im.has(keyl(i))
+        w = lambda i: im.last(keyl(i))          # index into `other` (the scan over reversed(other) keeps the first)
+        return im, keyl, matched, w
+
+
+def make_ljoin_inv(holder, inner):
+    def inv(S):
+        D, D0 = S.heap["D"], S.entry_heap["D"]
+        s, o, pos, rk = holder["s"], holder["o"], holder["pos"], holder["rk"]
+        im, keyl, matched, w = _LJoin.spec(holder, D0)
+        r, x = z3.Consts("r!inv x!inv", V)
+        p = pos(r)
+        touched_ = z3.And(0 <= p, p < S.k, s.at(p) == r)
+        src = D0[o.at(w(p))]
+        merged = z3.If(z3.And(touched_, matched(p), x != rk, src[x] != ABSENT), src[x], D0[r][x])
+        return z3.ForAll([r, x], D[r][x] == merged)
+    return inv
+
+
+def _mk_ljoin(qual, variant_, lkey_, rkey_, inner_):
+    holder_ = {}
+
+    class J(_LJoin):
+        qualname, variant, lkey, rkey, inner, holder = qual, variant_, lkey_, rkey_, inner_, holder_
+        loops = {(qual, 0): LoopSpec(make_ljoin_inv(holder_, inner_))}
+
+        def ensures(self, cx, result):
+            ctx = cx.ctx
+            s, o = self.holder["s"], self.holder["o"]
+            D0, D = cx.old["heap"]["D"], ctx.heap["D"]
+            im, keyl, matched, w = _LJoin.spec(self.holder, D0)
+            rk = self.holder["rk"]
+            items = result_items(cx, result)
+            i, j, x, r = ctx.fresh("i", INT), ctx.fresh("j", INT), ctx.fresh("x", V), ctx.fresh("r", V)
+            if self.inner:
+                e = Enum.of(ctx, s.len, matched)
+                cx.prove("kept: exactly the matched left items, in order",
+                         z3.And(zint(items.len) == e.cnt, z3.Implies(in_range(j, e.cnt), items.at(j) == s.at(e.idx(j)))))
+            else:
+                cx.prove("every left item once, in order (same objects)",
+                         z3.And(zint(items.len) == zint(s.len), z3.Implies(in_range(j, s.len), items.at(j) == s.at(j))))
+            snap = ctx.snapshot()
+            ctx.assume(in_range(i, s.len))
+            keyr = lambda jj: D0[o.at(jj)][rk]
+            cx.prove("match: the partner has the same key", z3.Implies(matched(i), z3.And(in_range(w(i), o.len), keyr(w(i)) == keyl(i))))
+            cx.prove("match: it is the first right item with that key", z3.Implies(z3.And(matched(i), 0 <= j, j < w(i)), keyr(j) != keyl(i)))
+            cx.prove("structure: the lookup table keeps the first of duplicate keys", im.first_wins is True)
+            cx.prove("lemma: a right item with the key is in the lookup table",
+                     z3.Implies(z3.And(in_range(j, o.len), keyr(j) == keyl(i)), z3.And(im.last(im.key(j)) >= 0, im.last(im.key(j)) <= j)))
+            cx.prove("no match: no right item has that key", z3.Implies(z3.And(z3.Not(matched(i)), in_range(j, o.len)), keyr(j) != keyl(i)))
+            src = D0[o.at(w(i))]
+            cx.prove("merged: non-key entries of the first matching right item, everything else kept",
+                     D[s.at(i)][x] == z3.If(z3.And(matched(i), x != rk, src[x] != ABSENT), src[x], D0[s.at(i)][x]))
+            ctx.restore(snap)
+            cx.prove("frame: right-hand items never change", z3.Implies(in_range(j, o.len), D[o.at(j)] == D0[o.at(j)]))
+            pos = self.holder["pos"]
+            cx.prove("frame: dicts outside the left list never change",
+                     z3.Implies(z3.Not(z3.And(in_range(pos(r), s.len), s.at(pos(r)) == r)), D[r] == D0[r]))
+    J.__name__ = "LJ_" + variant_.replace(" ", "_")
+    return register(J)
+
+
+LeftJoinLoD = _mk_ljoin("ListOfDicts.left_join", "same-named key", "k1", "k1", False)
+LeftJoinLoDRen = _mk_ljoin("ListOfDicts.left_join", "key named differently", "k1", "k2", False)
+InnerJoinLoD = _mk_ljoin("ListOfDicts.inner_join", "same-named key", "k1", "k1", True)
+
+
+class _SemiAnti(Contract):
+    file, prop = F, "C16"
+    also = ("C17",)
+    anti = False
+    lkey, rkey = "k1", "k1"
+
+    def setup(self, cx):
+        self_, other = cx.lod("self"), cx.lod("other")
+        all_items_have(cx, self_.base, [self.lkey])
+        all_items_have(cx, other.base, [self.rkey])
+        by = [self.lkey] if self.lkey == self.rkey else [(self.lkey, self.rkey)]
+        return {"self": self_, "args": [other] + by, "other": other}
+
+    def ensures(self, cx, result):
+        ctx = cx.ctx
+        s, o = cx.inputs["self"].base, cx.inputs["other"].base
+        D0 = cx.old["heap"]["D"]
+        lk, rk = M.to_v(cx.it, self.lkey), M.to_v(cx.it, self.rkey)
+        items = result_items(cx, result)
+        j = z3.Int("j!sa")
+        has_match = lambda x: z3.Exists([j], z3.And(in_range(j, o.len), D0[o.at(j)][rk] == D0[x][lk]))
+        pred = (lambda x: z3.Not(has_match(x))) if self.anti else has_match
+        spec = select_by(ctx, s, pred)
+        cx.prove("seq = left items with (semi) / without (anti) a right item of equal key, in order", seq_eq(ctx, items, spec))
+        cx.prove("frame:items-unchanged (both lists)", ctx.heap["D"] == D0)
+
+
+@register
+class SemiJoinLoD(_SemiAnti):
+    qualname = "ListOfDicts.semi_join"
+
+
+@register
+class AntiJoinLoD(_SemiAnti):
+    qualname, anti = "ListOfDicts.anti_join", True
+
+
+@register
+class AntiJoinLoDRen(_SemiAnti):
+    qualname, anti, variant, lkey, rkey = "ListOfDicts.anti_join", True, "key named differently", "k1", "k2"
+
+
+@register
+class SemiAntiPartitionLoD(Contract):
+    """Lemma: semi_join and anti_join select complementary predicates, hence partition the left list in order
+    (same argument as the filter/filter_out partition lemma)."""
+    file, qualname, prop, variant = F, "ListOfDicts.semi_join", "C16", "lemma:semi/anti partition"
+    lemma_only = True
+
+    def setup(self, cx):
+        self_, other = cx.lod("self"), cx.lod("other")
+        return {"self": self_, "other": other}
+
+    def ensures(self, cx, result):
+        ctx = cx.ctx
+        s, o = cx.inputs["self"].base, cx.inputs["other"].base
+        D0 = M.heap_D(ctx)
+        k1 = M.to_v(cx.it, "k1")
+        j = z3.Int("j!sa")
+        has_match = lambda x: z3.Exists([j], z3.And(in_range(j, o.len), D0[o.at(j)][k1] == D0[x][k1]))
+        a = select_by(ctx, s, has_match)
+        b = select_by(ctx, s, lambda x: z3.Not(has_match(x)))
+        i, t, t2 = ctx.fresh("i", INT), ctx.fresh("t", INT), ctx.fresh("t2", INT)
+        P = has_match(s.at(i))
+        cx.prove("lemma:covers", z3.Implies(in_range(i, s.len), z3.If(
+            P, z3.And(in_range(a.enum.rk(i), a.len), a.enum.idx(a.enum.rk(i)) == i),
+            z3.And(in_range(b.enum.rk(i), b.len), b.enum.idx(b.enum.rk(i)) == i))))
+        cx.prove("lemma:disjoint", z3.Implies(z3.And(in_range(t, a.len), in_range(t2, b.len)), a.enum.idx(t) != b.enum.idx(t2)))
+
+
+@register
+class LoDCompositesBounded(Contract):
+    """ListOfDicts.full_join (9-call composite with counters) and ListOfDicts.aggregate (dict of lists built in a
+    loop, per-group callbacks on nested lists) are NOT under a deductive contract; this entry attaches their bounded
+    run-time contracts and contributes structural obligations only."""
+    file, qualname, prop, variant = F, "ListOfDicts.full_join", "C16", "full_join + aggregate: bounded only"
+    lemma_only = True
+
+    def setup(self, cx):
+        return {"self": None}
+
+    def ensures(self, cx, result):
+        mod = RepoModule.load(F, cx.it.repo)
+        node = mod.find("ListOfDicts.full_join")[0]
+        called = {n.func.attr for n in _ast.walk(node) if isinstance(n, _ast.Call) and isinstance(n.func, _ast.Attribute)}
+        cx.prove("structure: full_join delegates to left_join, anti_join, sort", {"left_join", "anti_join", "sort"} <= called)
+        agg = mod.find("ListOfDicts.aggregate")[0]
+        called = {n.func.attr for n in _ast.walk(agg) if isinstance(n, _ast.Call) and isinstance(n.func, _ast.Attribute)}
+        cx.prove("structure: aggregate groups via unique + sort", {"unique", "sort", "setdefault"} <= called)
